@@ -471,3 +471,36 @@ Theorem C17_histories2_example_exact :
   forall (f v : N) (r : cres), f_check RT Tree.CompatHistReal3.st4 f v = Val r ->
     (fst r = [] <-> ValidIn RT Tree.CompatHistReal3.st4 f v).
 Proof. exact Tree.CompatHistReal3.hist3_real_example. Qed.
+
+(* ================= the value half: CharacterData::check_version_compatibility against CharacterData::check_value =================
+   For a value that fits its specification in SOME version (every value the library stores passed check_value of its stored type)
+   the compatibility verdict for the target IS check_value for the target - item masks for enumerations; the pattern validator
+   and the length bound `len <= max_length` do not depend on the version.  (When the target type's specification differs from the
+   stored type's the premise is about another spec: known finding C17-value-revalidation.) *)
+From AV Require Tree.CompatValue.
+(* [U] compatible with v exactly when check_value accepts the value for v *)
+Theorem C17_value_compat_is_check_value : forall (check_fn : N -> list N -> res bool) (d : cdata) (spec : Spec.SpecTypes.cdspec) (u v : N),
+  check_value check_fn d spec u = Val true ->
+  (value_valid v d spec <-> check_value check_fn d spec v = Val true).
+Proof. exact Tree.CompatValue.value_valid_check. Qed.
+(* [U] the returned mask contains the target exactly for an accepted value *)
+Theorem C17_value_mask_is_check_value : forall (check_fn : N -> list N -> res bool) (d : cdata) (spec : Spec.SpecTypes.cdspec)
+    (u v : N) (ok : bool) (m : N),
+  N.land 4294967295 v <> 0 -> check_value check_fn d spec u = Val true -> value_compat d spec v = (ok, m) ->
+  (ok = true <-> N.land m v <> 0).
+Proof. exact Tree.CompatValue.value_compat_mask_check. Qed.
+(* [U] element text: no error is pushed exactly when every text item passes check_value for the target *)
+Theorem C17_text_is_check_value : forall (check_fn : N -> list N -> res bool) (self : id) (spec : Spec.SpecTypes.cdspec) (v : N)
+    (items : list citem) (errs : list compat_err) (m : N),
+  (forall d, In (CData d) items -> exists u, check_value check_fn d spec u = Val true) ->
+  text_loop self spec v items = (errs, m) ->
+  (errs = [] <-> forall d, In (CData d) items -> check_value check_fn d spec v = Val true).
+Proof. exact Tree.CompatValue.text_loop_check. Qed.
+(* the length bound: exactly max_length bytes is accepted and compatible; one byte more fits no version, and the verdict alone
+   still says compatible - the premise above is needed *)
+Theorem C17_value_length_bound_example : forall (check_fn : N -> list N -> res bool),
+  (check_value check_fn (DString [65; 66; 67]) (Spec.SpecTypes.CString false (Some 3)) 1 = Val true /\
+   value_valid 2 (DString [65; 66; 67]) (Spec.SpecTypes.CString false (Some 3))) /\
+  ((forall u, check_value check_fn (DString [65; 66; 67; 68]) (Spec.SpecTypes.CString false (Some 3)) u = Val false) /\
+   value_valid 2 (DString [65; 66; 67; 68]) (Spec.SpecTypes.CString false (Some 3))).
+Proof. exact Tree.CompatValue.length_bound_example. Qed.
